@@ -186,6 +186,32 @@ T3 = {
            'C18 quick: terminal_twice in 199 runs'),
 }
 
+# fourth round (MQ properties only; brief asks for rarely used options / API entry points / state kept across calls);
+# delivered under /tmp/mut4_<id>. Seven of the sixteen deliveries re-invented changes that are already kept (see NOT_KEPT).
+T4 = {
+ 'C01_2': ('C01', ['C01', 'C02'], 'graceful ("rolling") restarts that nobody obeys, so that the pipeline goes on after a CLOSE',
+           'join (sink, keeps its own ids) of two independent sources, one restarted gracefully (CLOSE) while the other\'s current id is buffered: the reset meant for ephemeral sources now also resets the shared expected id, the new incarnation\'s id 0 is joined with the buffered id',
+           'C01 quick: mixed_ids in 2 runs; C02 quick: duplicate_id_across_restart'),
+ 'C03_1': ('C03', ['C06'], '', 'publisher with >=2 required outputs, one of them leaves (CLOSE or time-out) while another keeps requesting: required outputs are only waited for once, the publisher carries on without it',
+           'C06 quick: required_missing_publish in 13 runs (C03 is fault-free by its own preconditions and cannot see it)'),
+ 'C04_1': ('C04', ['C04'], '', 'one clock read per ZMQSender.send(): a consumer registered by a long blocking send is stamped with the call\'s entry time and pruned as timed out as soon as another consumer asks',
+           'C04 quick: unbounded_publish in 2 runs'),
+ 'C04_2': ('C04', ['C04'], '', 'relay with sources_timeout and no outputs_timeout: the output wait uses the leftover of the input wait, frames for a stalled consumer are dropped and upstream keeps publishing',
+           'C04 quick: unbounded_publish_upstream in 71 runs'),
+ 'C05_2': ('C05', ['C05'], '', 'join of a synchronized source with a multi-topic ephemeral source, the synchronized set completing between two topics of the ephemeral one: half sets are delivered',
+           'C05 quick: ephemeral_incomplete'),
+ 'C06_1': ('C06', ['C06'], '', 'outputs_balance + handshake: a restarted / late worker never gets its HELLO when a frame goes out in the same send(), stays "new" for ever and is starved',
+           'C06 quick: no_progress in 4 runs'),
+ 'C07_2': ('C07', ['C07'], '', 'prev_id only recorded when recv() got no state: a rejoin that does not forward one frame (process() returned None) forgets what it has taken and accepts a late older frame',
+           'C07 quick: order in 61 runs'),
+ 'C08_1': ('C08', ['C08'], 'C08 gives exit_after filters an outputs_timeout and consumers that have stopped asking',
+           'outputs_timeout + exit_after + sends that time out: `return` instead of `break` skips the exit_after check, the filter never ends',
+           'C08 quick: did_not_end in 63 runs'),
+ 'C08_2': ('C08', ['C08'], 'C08 gained the send-side oracle announcement_not_sent (every ending filter puts its announcement on each of its channels, connected or not)',
+           'exit announcement pushed only to sources already heard from: a filter that ends before its first message (setup failure, stop during warm-up) announces nothing upstream',
+           'C08 quick: announcement_not_sent in 99 runs'),
+}
+
 NOT_KEPT = """
 Not kept: a first C01 change of round 1 (MQ.send clearing send_state before the send is known to have gone out; caught by
 C01 rejoin_roots) deterministically fails the existing test tests/test_filter.py::TestFilterOld::test_topo_balance_step.
@@ -198,6 +224,12 @@ generator give loop_exc=False to the neighbours of the failing filter, was then 
 the unchanged tree on the same path (an obeyed error exit swallowed by loop_exc=False). With that defect repaired
 (28ac49b) the seeded change no longer breaks the property (its own demonstration passes on the repaired tree with the
 change applied), so it is not kept either.
+Round 4: seven deliveries re-invented changes that are already kept and are not added a second time - C01-1 (template
+aliasing in new_recv = C01-r3-2), C02-1 (Fortran image zero-copy = C02-r3-1), C02-2 and C07-1 (MQ.send keeps recv_state
+when the deferred result was None = C07-r3-2; with the round-4 generators C02 catches it too), C05-1 (uid per receiver =
+C05-r3-2), C06-2 (MQ.send drops the id jump of a discarded send = C06-r3-2). C03-r4-2 (mq_msgid_sync=False honoured in
+one direction only) needs mq_msgid_sync=False together with a process({}) that emits tick frames under sources_timeout:
+both are configurations the generators leave out (DESIGN.md 10), no check catches it, it is not counted.
 """
 
 
@@ -235,14 +267,15 @@ def _round(table, prefix, sid_of, tests, rows):
 
 
 def main():
-    """args: [tests-log round 1] [tests-log round 2] [tests-log round 3]; a change whose meta.json exists and that has no
+    """args: [tests-log round 1] [tests-log round 2] [tests-log round 3] [tests-log round 4]; a change whose meta.json exists and that has no
     line in the given log keeps its recorded meta.json."""
-    a = sys.argv[1:] + [None] * 3
+    a = sys.argv[1:] + [None] * 4
     rows = []
     _round(T, '/tmp/mut_', lambda mid, prop: mid.replace('_', '-'), _tests(a[0]), rows)
     _round(T2, '/tmp/mut2_', lambda mid, prop: f'{prop}-r2-{mid[-1]}' if mid.startswith(prop) else f'{mid[:3]}-r2-{mid[-1]}',
            _tests(a[1]), rows)
     _round(T3, '/tmp/mut3_', lambda mid, prop: f'{mid[:3]}-r3-{mid[-1]}', _tests(a[2]), rows)
+    _round(T4, '/tmp/mut4_', lambda mid, prop: f'{mid[:3]}-r4-{mid[-1]}', _tests(a[3]), rows)
     with open(os.path.join(HERE, 'seeded', 'INDEX.md'), 'w') as f:
         f.write('# Seeded changes (independent sub-agents: property text + scratch worktree only)\n\n')
         f.write('Each directory holds patch.diff, demo.py (fails with the change, passes without), notes.md (the author\'s) and '
